@@ -359,6 +359,12 @@ class RTCIceTransport(AsyncIOEventEmitter):
         """
         if self.state != "closed":
             self.__setState("closed")
+            # no more remote candidates will come, otherwise a pending start()
+            # keeps waiting for them after the connection was closed
+            try:
+                await self._connection.add_remote_candidate(None)
+            except ValueError:
+                pass
             await self._connection.close()
             if self.__monitor_task is not None:
                 await self.__monitor_task
